@@ -165,6 +165,16 @@ Theorem C13_expression_is_pure :
 Proof. exact @expression_is_pure. Qed.
 Print Assumptions C13_expression_is_pure.
 
+(* the `frame` premise above, for the object the caches actually hold: on the GENERATED effect lists of
+   cotengra/contract.py Contractor.__call__ -- it performs no write to self.*, to the class or to a
+   global (so no state written by one call can influence a later call of the shared, cached object), and
+   everything it reads from self is a slot set by __init__.  This is syntactic evidence for `frame`;
+   the check also snapshots every slot of every expression around each call. *)
+Theorem C13_contractor_call_is_read_only :
+  contractor_call_writes = [] /\ inclb contractor_call_reads contractor_slots = true.
+Proof. split; vm_compute; reflexivity. Qed.
+Print Assumptions C13_contractor_call_is_read_only.
+
 (* ---- per-class handler tables -------------------------------------------------------------- *)
 Theorem C13_dispatch_by_class_sound : forall ch default (os : list pyobj),
   (forall o1 o2, In o1 os -> In o2 os -> o_cls o1 = o_cls o2 ->
@@ -321,3 +331,16 @@ Example C13_example_merged :
   nc_use n = true /\ nc_keyok (tuple_key std_spec) n = true /\
   py_eqb (nc_dkey ex_env (tuple_key std_spec) n) (nc_dkey ex_env (tuple_key std_spec) n) = true.
 Proof. vm_compute. repeat split. Qed.
+
+(* a history-dependent expression: the object remembers the array library resolved by its FIRST call
+   (state: None | Some library) and uses it for every later call.  Shared through the cache, a call on
+   library 1 (numpy) after a call on library 0 (lazy) is evaluated with library 0; a fresh object is not *)
+Example C13_example_remembered_backend_visible :
+  let call := fun (s : option nat) (a : nat * Z) =>
+                let lib := match s with Some l => l | None => fst a end in
+                (Some lib, (lib, snd a)) in
+  obj_cached_outputs (fun _ : unit => PInt 0) (fun _ => true) (fun _ => None) call [(tt, (0%nat, 5%Z)); (tt, (1%nat, 5%Z))]
+  = [(0%nat, 5%Z); (0%nat, 5%Z)] /\
+  obj_plain_outputs (fun _ : unit => None) call [(tt, (0%nat, 5%Z)); (tt, (1%nat, 5%Z))]
+  = [(0%nat, 5%Z); (1%nat, 5%Z)].
+Proof. split; vm_compute; reflexivity. Qed.
